@@ -112,12 +112,8 @@ Lemma scgi_env_safe_inv fuel buf p back acc :
   0 <= p -> rd buf (back - 1) = Some 0%N -> scgi_env fuel buf p back acc = None -> False.
 Proof. intros H1 H2 H3. exact (scgi_env_safe fuel buf p back acc H1 H2 H3). Qed.
 
-(* ------------------------------------------------------------------ SCGI at the level of a whole connection: an unsafe read
-   happens only if the header block is not NUL terminated *)
-Definition scgi_sep (s : list N) : Z := Z.of_nat (find_colon (firstn 16 s) 0).
-Definition scgi_len (s : list N) : Z := atoi (cstr (firstn (Z.to_nat (scgi_sep s)) (firstn 16 s))).
-(* index of the last byte of the header block (the byte before the comma) *)
-Definition scgi_block_end (s : list N) : Z := scgi_sep s + scgi_len s.
+(* ------------------------------------------------------------------ SCGI at the level of a whole connection: no unsafe read
+   for any byte string; a non-empty header block whose last byte is not NUL is a protocol violation *)
 Lemma rd_firstn buf n i : 0 <= i < Z.of_nat n -> rd (firstn n buf) i = rd buf i.
 Proof.
   intros H. unfold rd. destruct (Z.ltb_spec i 0); [lia|].
@@ -126,8 +122,25 @@ Proof.
   destruct buf as [|x t]; [destruct k; reflexivity|]. destruct k as [|k]; [reflexivity|].
   cbn [firstn nth_error]. apply IH. lia.
 Qed.
-Lemma scgi_run_unsafe_only_if_unterminated s :
-  In IUnsafe (fst (scgi_run s)) -> rd s (scgi_block_end s) <> Some 0%N.
+Lemma rd_in_range buf i : 0 <= i < Z.of_nat (length buf) -> rd buf i <> None.
+Proof.
+  intros H E. unfold rd in E. destruct (Z.ltb_spec i 0); [lia|]. apply nth_error_None in E. lia.
+Qed.
+(* the scan loop does nothing when it starts at or behind the last byte *)
+Lemma scgi_env_done fuel buf p back acc : back <= p -> scgi_env fuel buf p back acc = Some acc.
+Proof. intros H. destruct fuel; cbn [scgi_env]; [reflexivity|]. destruct (Z.ltb_spec p back); [lia|reflexivity]. Qed.
+(* after the test added by repair 236058f the scan is always in bounds *)
+Lemma scgi_block_terminated_scan_safe buf sep size fuel acc :
+  0 <= sep -> sep + 2 <= size -> scgi_block_terminated buf sep size = Some true ->
+  scgi_env fuel buf (sep + 1) (size - 1) acc <> None.
+Proof.
+  intros S0 S1. unfold scgi_block_terminated. destruct (Z.gtb_spec size (sep + 2)) as [G|G].
+  - destruct (rd buf (size - 2)) as [b|] eqn:R; [|discriminate].
+    destruct (N.eqb_spec b 0) as [->|NZ]; [|discriminate]. intros _.
+    apply scgi_env_safe; [lia|]. replace (size - 1 - 1) with (size - 2) by lia. exact R.
+  - intros _. rewrite scgi_env_done by lia. discriminate.
+Qed.
+Lemma scgi_run_no_unsafe s : ~ In IUnsafe (fst (scgi_run s)).
 Proof.
   unfold scgi_run. fold (scgi_sep s). fold (scgi_len s).
   destruct (_ <? 16); [intros [H|[]]; discriminate|]. cbv zeta.
@@ -138,15 +151,104 @@ Proof.
   destruct (Z.ltb_spec (Z.of_nat (length s)) (scgi_sep s + 2 + scgi_len s)) as [L2|L2]; [intros [H|[]]; discriminate|].
   assert (Sep0 : 0 <= scgi_sep s) by (unfold scgi_sep; lia).
   set (size := scgi_sep s + 2 + scgi_len s) in *.
+  assert (LB : Z.of_nat (length (firstn (Z.to_nat size) s)) = size) by (rewrite firstn_length; lia).
   destruct (rd (firstn (Z.to_nat size) s) (size - 1)) as [last|] eqn:RL.
-  2:{ exfalso. rewrite rd_firstn in RL by lia. unfold rd in RL. destruct (Z.ltb_spec (size - 1) 0); [lia|].
-      apply nth_error_None in RL. lia. }
+  2:{ exfalso. revert RL. apply rd_in_range. lia. }
   destruct (negb (N.eqb last 44)); [intros [H|[]]; discriminate|].
-  destruct (scgi_env _ _ _ _ _) as [e|] eqn:SE.
-  { destruct (content_start _ _ _) as [a cnt|code cnt|a n setup|]; try (intros [H|[]]; discriminate).
-    destruct (_ <? n); intros [H|[]]; discriminate. }
-  intros _ Z0. revert SE. apply scgi_env_safe_inv.
-  - lia.
-  - replace (size - 1 - 1) with (scgi_block_end s) by (unfold scgi_block_end, size; lia).
-    rewrite rd_firstn by (unfold scgi_block_end in *; lia). exact Z0.
+  destruct (scgi_block_terminated _ _ _) as [[|]|] eqn:BT.
+  - assert (S2 : scgi_sep s + 2 <= size) by (subst size; lia).
+    pose proof (scgi_block_terminated_scan_safe _ _ _ (length (firstn (Z.to_nat size) s)) [] Sep0 S2 BT) as SE.
+    destruct (scgi_env _ _ _ _ _) as [e|]; [|contradiction].
+    destruct (content_start _ _ _) as [a cnt|code cnt|a n setup|]; try (intros [H|[]]; discriminate).
+    destruct (_ <? n); intros [H|[]]; discriminate.
+  - intros [H|[]]; discriminate.
+  - exfalso. unfold scgi_block_terminated in BT. destruct (Z.gtb_spec size (scgi_sep s + 2)) as [G|G]; [|discriminate].
+    destruct (rd (firstn (Z.to_nat size) s) (size - 2)) as [b|] eqn:R; [discriminate|].
+    revert R. apply rd_in_range. lia.
+Qed.
+(* the input class of the repaired defect, in general: a header block of positive declared length whose last byte is
+   not NUL is never scanned - the connection is closed as a protocol violation and no application callback runs *)
+Lemma scgi_run_unterminated_rejected s :
+  0 < scgi_len s -> rd s (scgi_block_end s) <> Some 0%N -> scgi_run s = ([IEnd], c0).
+Proof.
+  intros LP NZ. unfold scgi_run. fold (scgi_sep s). fold (scgi_len s).
+  destruct (_ <? 16); [reflexivity|]. cbv zeta.
+  destruct (scgi_sep s >=? 16); [reflexivity|].
+  destruct (Z.ltb_spec (scgi_len s) 0) as [L0|L0]; [reflexivity|].
+  destruct (16384 <? scgi_len s); [reflexivity|]. cbn [orb].
+  destruct (Z.leb_spec (scgi_sep s + 2 + scgi_len s) 16) as [L1|L1]; [reflexivity|].
+  destruct (Z.ltb_spec (Z.of_nat (length s)) (scgi_sep s + 2 + scgi_len s)) as [L2|L2]; [reflexivity|].
+  assert (Sep0 : 0 <= scgi_sep s) by (unfold scgi_sep; lia).
+  set (size := scgi_sep s + 2 + scgi_len s) in *.
+  assert (LB : Z.of_nat (length (firstn (Z.to_nat size) s)) = size) by (rewrite firstn_length; lia).
+  destruct (rd (firstn (Z.to_nat size) s) (size - 1)) as [last|] eqn:RL.
+  2:{ exfalso. revert RL. apply rd_in_range. lia. }
+  destruct (negb (N.eqb last 44)); [reflexivity|].
+  unfold scgi_block_terminated. destruct (Z.gtb_spec size (scgi_sep s + 2)) as [G|G]; [|unfold size in G; lia].
+  replace (size - 2) with (scgi_block_end s) by (unfold scgi_block_end, size; lia).
+  rewrite rd_firstn by (unfold scgi_block_end, size in *; lia).
+  destruct (rd s (scgi_block_end s)) as [b|] eqn:R.
+  - destruct (N.eqb_spec b 0) as [->|NB]; [contradiction|reflexivity].
+  - exfalso. revert R. apply rd_in_range. unfold scgi_block_end, size in *. lia.
+Qed.
+
+(* ------------------------------------------------------------------ FastCGI: the input class of the repaired defect, in general.
+   A GET_VALUES record with no content and no padding (whatever its request id and reserved byte, wherever it stands
+   on the connection) is answered with an empty GET_VALUES_RESULT and the connection goes on with the next record *)
+Lemma fcgi_empty_get_values_continues f i1 i0 x r :
+  fcgi_conn (S f) (1 :: 9 :: i1 :: i0 :: 0 :: 0 :: 0 :: x :: r)%N =
+  (IGetValues [] :: fst (fcgi_conn f r), snd (fcgi_conn f r)).
+Proof.
+  cbn [fcgi_conn read_record]. change (zb 0 * 256 + zb 0) with 0. change (zb 0) with 0. change (0 + 0) with 0.
+  destruct (Z.ltb_spec (Z.of_nat (length r)) 0) as [L|L]; [lia|].
+  cbn [Z.to_nat firstn skipn f_version f_type]. change (zb 1 =? 1) with true. change (zb 9 =? 9) with true.
+  cbn [negb parse_pairs_all gv_answer]. destruct (fcgi_conn f r) as [l c]. reflexivity.
+Qed.
+
+Lemma all_readers_no_unsafe segments s :
+  ~ In IUnsafe (fst (http_run segments)) /\ ~ In IUnsafe (fst (scgi_run s)) /\ (bytes_ok s -> ~ In IUnsafe (fst (fcgi_run s))).
+Proof.
+  split; [unfold http_run; apply http_conn_no_unsafe|]. split; [apply scgi_run_no_unsafe|apply fcgi_run_no_unsafe].
+Qed.
+
+(* ------------------------------------------------------------------ FastCGI: unknown record types, unknown roles, other versions.
+   Stated over the first record of the stream as read by read_record, for every rest of the stream. *)
+Lemma fcgi_other_version_closed f s h content rest :
+  read_record s = Some (h, content, rest) -> f_version h <> 1 -> fcgi_conn (S f) s = ([IEnd], c0).
+Proof.
+  intros R V. cbn [fcgi_conn]. rewrite R. destruct (Z.eqb_spec (f_version h) 1); [contradiction|reflexivity].
+Qed.
+Lemma fcgi_unknown_type_skipped f s h content rest :
+  read_record s = Some (h, content, rest) -> f_version h = 1 -> f_type h <> 9 -> f_type h <> 1 ->
+  fcgi_conn (S f) s = fcgi_conn f rest.
+Proof.
+  intros R V T9 T1. cbn [fcgi_conn]. rewrite R, V. cbn [Z.eqb Pos.eqb negb].
+  destruct (Z.eqb_spec (f_type h) 9); [contradiction|]. destruct (Z.eqb_spec (f_type h) 1); [contradiction|reflexivity].
+Qed.
+Lemma fcgi_unknown_role_answered f s h content rest :
+  read_record s = Some (h, content, rest) -> f_version h = 1 -> f_type h = 1 -> length content = 8%nat ->
+  zb (nth 0 content 0%N) * 256 + zb (nth 1 content 0%N) <> 1 ->
+  fcgi_conn (S f) s = (IUnknownRole :: fst (fcgi_conn f rest), snd (fcgi_conn f rest)).
+Proof.
+  intros R V T L Role. cbn [fcgi_conn]. rewrite R, V, T, L. cbn [Z.eqb Pos.eqb negb Z.of_nat Pos.of_succ_nat Pos.succ].
+  cbv zeta. destruct (Z.eqb_spec (zb (nth 0 content 0%N) * 256 + zb (nth 1 content 0%N)) 1); [contradiction|].
+  cbn [negb]. destruct (fcgi_conn f rest) as [l c]. reflexivity.
+Qed.
+(* a BEGIN_REQUEST whose body is not exactly 8 bytes is a protocol violation *)
+Lemma fcgi_begin_request_bad_size_closed f s h content rest :
+  read_record s = Some (h, content, rest) -> f_version h = 1 -> f_type h = 1 -> length content <> 8%nat ->
+  fcgi_conn (S f) s = ([IEnd], c0).
+Proof.
+  intros R V T L. cbn [fcgi_conn]. rewrite R, V, T. cbn [Z.eqb Pos.eqb negb].
+  destruct (Z.eqb_spec (Z.of_nat (length content)) 8); [lia|reflexivity].
+Qed.
+
+(* the decidable input class used by the oracle lies inside the hypothesis of scgi_run_unterminated_rejected *)
+Lemma scgi_unterminated_class_rejected s : scgi_unterminated_class s = true -> scgi_run s = ([IEnd], c0).
+Proof.
+  unfold scgi_unterminated_class. cbv zeta. intros H.
+  repeat (apply andb_true_iff in H; destruct H as [H ?]).
+  apply scgi_run_unterminated_rejected; [lia|].
+  unfold scgi_block_end. replace (scgi_sep s + scgi_len s) with (scgi_sep s + 2 + scgi_len s - 2) by lia.
+  intros E. unfold rd_is in *. rewrite E in *. discriminate.
 Qed.
